@@ -792,7 +792,7 @@ class VmTarSuite(Suite):
                 "From DH Require Import Spec.VmTar Model.VmTar.\n")
 
     def generate(self, rng, tier):
-        n = 1500 if tier == "thorough" else 110
+        n = 1000 if tier == "thorough" else 110
         cases = []
         for i in range(n):
             k = rng.weighted([("wf", 5), ("long", 2), ("malformed", 3), ("plain", 1)])
@@ -825,12 +825,23 @@ class VmTarSuite(Suite):
         # the standard-reader model (va = false) is evaluated on every plain / malformed case and on a third
         # of the others (it is the same computation again; its tie to tarfile.TarInfo needs fewer cases)
         std = "run false f" if self.wants_std(case, data) else "skip_run"
-        if case["stream"] in ("wf",):
-            a = "[" + "; ".join(member_term(m) for m in case["items"]) + "]"
-            return (f"let f := {f} in let a := {a} in "
-                    f"(run true f, {std}, (wf_archiveb a, list_eqb (firstn (length (render a)) f) (render a), "
+        if case["stream"] in ("wf", "long"):
+            items = []
+            pend = []
+            for m in case["items"]:
+                if m.get("payload") is not None:
+                    pend.append(member_term(m))
+                else:
+                    t = f"IMember ({member_term(m)})"
+                    for r in reversed(pend):
+                        t = f"ILong ({r}) ({t})"
+                    pend = []
+                    items.append(t)
+            l = "[" + "; ".join(items) + "]"
+            return (f"let f := {f} in let l := {l} in "
+                    f"(run true f, {std}, (wf_itemsb l, list_eqb (firstn (length (render_items l)) f) (render_items l), "
                     f"map (fun e => ((e_name e, e_link e, (e_type e, e_size e, e_off e, e_data e), "
-                    f"(e_visor e, e_text e, e_fix e)), spec_extract e)) (listing 0 a)))")
+                    f"(e_visor e, e_text e, e_fix e)), spec_extract e)) (listing_items 0 l)))")
         return f"let f := {f} in (run true f, {std})"
 
     @staticmethod
@@ -904,10 +915,10 @@ class VmTarSuite(Suite):
             f1, _ = impl_vs_model("vmtar", rv, mv, data, sig + ":visor")
             f2, _ = impl_vs_model("tarfile", rs, ms, data, sig + ":std")
             fs += f1 + f2
-            if stream == "wf":
+            if stream in ("wf", "long"):
                 _, wf, ren, lst = coq_val[3]
                 if wf != "true":
-                    fs.append(Finding("coq_error", "generated archive does not satisfy wf_archiveb (generator bug)", sig + ":wf"))
+                    fs.append(Finding("coq_error", "generated archive does not satisfy wf_itemsb (generator bug)", sig + ":wf"))
                 if ren != "true":
                     fs.append(Finding("coq_error", "Coq render differs from the harness writer", sig + ":render"))
                 spec_entries = []
@@ -919,7 +930,15 @@ class VmTarSuite(Suite):
                     spec_entries.append({"name": bytes(name), "link": bytes(link), "type": ty, "size": sz, "off": off,
                                          "data": doff, "visor": visor == "true", "text": text, "fix": fix, "x": x})
         if stream == "long":
-            spec_entries = self.py_spec(case)
+            # the harness's own reading of the format for long records must agree with the Coq specification
+            py = self.py_spec(case)
+            if spec_entries is None:
+                spec_entries = py
+            else:
+                d = cmp_members(spec_entries, py)
+                if d or [e["x"] for e in spec_entries] != [e["x"] for e in py]:
+                    fs.append(Finding("coq_error", f"Coq specification and harness specification of long records differ: {d}",
+                                      sig + ":spec-py"))
         # ---- impl vs spec
         if spec_entries is not None:
             fs += self.judge_spec(case, rv, spec_entries, data, sig)
